@@ -375,7 +375,9 @@ async fn serve_stream(
             let mut send = respond.send_response(grpc_headers(200), false)?;
             let mut trailers = HeaderMap::new();
             trailers.insert("grpc-status", HeaderValue::from_str(&code.to_string()).unwrap());
-            trailers.insert("grpc-message", HeaderValue::from_static("scripted"));
+            if let Some(m) = grpc_message(code) {
+                trailers.insert("grpc-message", m);
+            }
             send.send_trailers(trailers)
         })()
         .map(|()| if code == 0 { Outcome::Acked } else { Outcome::Rejected })
@@ -384,7 +386,9 @@ async fn serve_stream(
             plan(if code == 0 { Outcome::Acked } else { Outcome::Rejected });
             let mut res = grpc_headers(200);
             res.headers_mut().insert("grpc-status", HeaderValue::from_str(&code.to_string()).unwrap());
-            res.headers_mut().insert("grpc-message", HeaderValue::from_static("scripted"));
+            if let Some(m) = grpc_message(code) {
+                res.headers_mut().insert("grpc-message", m);
+            }
             match respond.send_response(res, true) {
                 Ok(_) => {
                     if code == 0 {
@@ -449,4 +453,24 @@ async fn serve_stream(
         Decision::CloseBeforeRead | Decision::WedgeConnection { .. } => unreachable!(),
     };
     inner.finish(idx, outcome);
+}
+
+
+/// The human-readable `grpc-message` that accompanies a scripted status. What a server puts there is free text that
+/// SHOULD be percent-encoded but in practice often is not: the text is chosen by the status code so that the usual
+/// shapes all occur (absent, empty, plain, properly encoded, a raw `%` in the middle, at the very end, followed by one
+/// character, an invalid escape, encoded non-ASCII).
+fn grpc_message(code: i32) -> Option<HeaderValue> {
+    const TEXTS: [Option<&str>; 9] = [
+        Some("scripted"),
+        None,
+        Some("disk usage at 100%"),
+        Some(""),
+        Some("quota%20exceeded"),
+        Some("caf%C3%A9 closed"),
+        Some("bad %zz escape, 100% full"),
+        Some("%"),
+        Some("retry in 5%s"),
+    ];
+    TEXTS[code.rem_euclid(TEXTS.len() as i32) as usize].map(HeaderValue::from_static)
 }
